@@ -243,6 +243,7 @@ def run(prog: Program) -> Results:
     presence_tests(prog, res, "R-C01-7", renderer_functions(prog, cg))
     marker_positions(prog, res, "R-C01-8")
     no_greedy_strip(prog, res, "R-C01-10")
+    scoped_nodes_render_their_let(prog, res, "R-C01-12")
     no_text_rewriting(prog, res, "R-C01-9", renderer_functions(prog, cg) + [prog.func("NixSourceCode.rebuild")])
     from sa.rules import kinds
     kinds.check(prog, res, "R-C01-11")
@@ -483,3 +484,52 @@ def no_greedy_strip(prog: Program, res: Results, rid: str) -> None:
             res.add(rid, (k, "greedy strip of token text", norm(c.args[0])), f.loc(c),
                     f"{k}: `{norm(c)[:70]}` removes every leading/trailing `{norm(c.args[0])}` character, not one delimiter: the body of "
                     f"`\"echo \\\\\"hi\\\\\"\"` loses the quote of its final escape, and the rebuilt literal no longer parses")
+
+
+# ------------------------------------------------------------------------------------------------ R-C01-12
+SCOPELESS_CLASSES = {"Comment", "MultilineComment", "LetExpression", "NixSourceCode", "RawExpression"}
+RENDER_ENTRIES = ("rebuild", "simple_inline_preview", "_inline_preview")
+
+
+def scoped_nodes_render_their_let(prog: Program, res: Results, rid: str) -> None:
+    from sa.cfg import CFG, edges_establishing
+    r = res.rule(rid, "a node that carries lifted let layers (`scope`) is always rendered through rebuild_scoped: every rendering "
+                 "entry of an expression class (rebuild, and the preview methods other renderers use verbatim) returns text only "
+                 "on paths where `self.has_scope()` is false — or is private to such a path of its own class", floor=20)
+    for c in renderer_classes(prog):
+        if c in SCOPELESS_CLASSES:
+            continue
+        for entry in RENDER_ENTRIES:
+            f = prog.own_method(c, entry)
+            if f is None:
+                continue
+            r.instances += 1
+            cfg = CFG(f.node)
+            e = edges_establishing(cfg, lambda a, t: (norm(a) == "self.has_scope()" and t is False) or (norm(a) == "not self.has_scope()" and t is True))
+            rets = [n for n in cfg.nodes if n.kind == "return" and not (n.ast.value is None or (isinstance(n.ast.value, ast.Constant) and n.ast.value.value is None))]
+            un = [n for n in rets if not (e and cfg.all_paths_pass(n, cut_edges=e)) and "rebuild_scoped" not in norm(n.ast)]
+            ok = not un
+            if un and entry != "rebuild":
+                # a private helper: every caller inside the package calls it on `self` from a path that already excluded a scope
+                callers = []
+                for g in prog.all_functions():
+                    for call in walk_no_nested(g.node):
+                        if isinstance(call, ast.Call) and isinstance(call.func, ast.Attribute) and call.func.attr == entry:
+                            callers.append((g, call))
+                def guarded(g, call):
+                    if not (isinstance(call.func.value, ast.Name) and call.func.value.id == "self"):
+                        return False
+                    gc = CFG(g.node)
+                    ge = edges_establishing(gc, lambda a, t: norm(a) == "self.has_scope()" and t is False)
+                    node = gc.containing(call)
+                    if ge and node is not None and gc.all_paths_pass(node, cut_edges=ge):
+                        return True
+                    # or the caller is itself a private entry that is only reached that way
+                    return g.cls == c and g.name in RENDER_ENTRIES and g.name != "rebuild" and g.name != entry and False
+                ok = bool(callers) and all(guarded(g, call) for g, call in callers)
+            r.ob(ok, {"class": c, "entry": entry, "returns": len(rets)})
+            if not ok:
+                res.add(rid, (c, entry, "text returned for a node that carries let layers"), f.loc(un[0].ast),
+                        f"{c}.{entry}: `{norm(un[0].ast)[:60]}` can be returned while `self.has_scope()` is true (and a caller outside the "
+                        f"class uses the result verbatim): the lifted `let … in` is not rendered — `{{ a = let x = 1; in [ x ]; }}` "
+                        f"rebuilds as `{{ a = [ x ]; }}`")
